@@ -286,6 +286,13 @@ def pole_failures(bpj, pole_name, limit=20):
     return out
 
 
+def off_grid(bpj):
+    """entities whose footprint corners are not on tile boundaries (observation only: the property texts
+    do not speak about grid alignment; the game snaps such an entity when the blueprint is pasted)"""
+    return [describe(e) for e in ents(bpj)
+            if (2 * e["x"] - e["tw"]) % (2 * UNIT) or (2 * e["y"] - e["th"]) % (2 * UNIT)]
+
+
 def idle_poles(bpj):
     """poles without a circuit wire (what relays_only refuses)"""
     es = ents(bpj)
@@ -527,6 +534,7 @@ class Case:
         self.expected = expected  # None: the program places nothing we know of
         self.props = props or {}
         self.note = note
+        self.fault = False  # compiled by the fault-injecting workers
         self.status = None  # ok | rejected | error
         self.msg = None
         self.bpj = None
@@ -537,7 +545,10 @@ class Case:
         return opts_of(self.cfg)
 
     def describe(self):
-        return {"program": self.text, "options": self.opts, "kind": self.kind}
+        d = {"program": self.text, "options": self.opts, "kind": self.kind}
+        if self.fault:
+            d["fault_injection"] = f"the first {FAULT_FAILS} calls of IntegerLayoutEngine._solve_with_strategy of every layout attempt fail"
+        return d
 
 
 def compile_cases(cases):
@@ -723,6 +734,20 @@ def classify_compile_error(case, baseline_ok):
     return None
 
 
+def s8_region(case):
+    """finding S8: the layout engine sees more than 500 entities and takes _optimize_with_decomposition.
+    What it sees is every circuit entity plus every PLANNED grid pole (poles are trimmed only afterwards),
+    so with a pole option the count is recomputed from the planned grid"""
+    if entity_total(case.bpj) > 500:
+        return True
+    if case.cfg[0]:
+        es = ents(case.bpj)
+        n = sum(1 for e in es if e["cls"] != "CPole")
+        planned, skipped = planned_grid(case, n)
+        return n + len(planned) - len(skipped) > 500
+    return False
+
+
 def witnesses(prop):
     """[(finding, Case)] for the listed findings of this property that carry a witness program"""
     out = []
@@ -818,3 +843,49 @@ def twin_diff(with_poles, without):
         f = lambda blocks: [sorted(map(list, blk)) for blk in list(blocks)[:3]]
         return {"kind": "twin-networks", "only_with_poles": f(a[1] - b[1]), "only_without": f(b[1] - a[1])}
     return None
+
+
+# ------------------------------------------------------------------ fault injection (harness side)
+# The property quantifies over every outcome of the layout search, also after failed attempts.  These
+# workers run the same public entry point, but the first FAULT_FAILS calls of
+# IntegerLayoutEngine._solve_with_strategy of every layout attempt report "no solution", which sends the
+# engine down its relaxation ladder (/repo is not modified; the patch lives in the worker processes).
+FAULT_FAILS = 2
+_fault_pool = None
+
+
+def _init_fault_worker():
+    H._init_worker()
+    from dsl_compiler.src.layout import integer_layout_solver as ils
+
+    orig = ils.IntegerLayoutEngine._solve_with_strategy
+
+    def wrapped(self, strategy, *a, **k):
+        n = getattr(self, "_verif_calls", 0)
+        self._verif_calls = n + 1
+        if n < FAULT_FAILS:
+            return ils.OptimizationResult(positions={}, violations=0, total_wire_length=0, success=False,
+                                          strategy_used=str(strategy.get("name", "?")), solve_time=0.0)
+        return orig(self, strategy, *a, **k)
+
+    ils.IntegerLayoutEngine._solve_with_strategy = wrapped
+
+
+def compile_cases_faulty(cases):
+    """like compile_cases, with the first solver calls of every layout attempt failing"""
+    global _fault_pool
+    if not cases:
+        return cases
+    if _fault_pool is None:
+        import multiprocessing as mp
+
+        _fault_pool = mp.get_context("fork").Pool(H.NPROC, initializer=_init_fault_worker)
+    res = _fault_pool.map(H._compile_one, [(c.text, c.opts) for c in cases], chunksize=1)
+    for c, r in zip(cases, res):
+        c.status = r[0]
+        if r[0] == "ok":
+            c.bpj = json.loads(r[1])
+            c.harvest = r[2] if len(r) > 2 else None
+        else:
+            c.msg = r[1]
+    return cases
